@@ -271,13 +271,22 @@ fn collect_field<'a>(
 
                 let field_value = match field_future {
                     FieldFuture::Value(field_value) => field_value,
-                    FieldFuture::Future(future) => future
-                        .await
-                        .map_err(|err| err.into_server_error(field.pos))?,
+                    FieldFuture::Future(future) => match future.await {
+                        Ok(field_value) => field_value,
+                        Err(err) => {
+                            let err = ctx_field.set_error_path(err.into_server_error(field.pos));
+                            if field_def.ty.is_nullable() {
+                                ctx_field.add_error(err);
+                                return Ok(None);
+                            }
+                            return Err(err);
+                        }
+                    },
                 };
 
                 let value =
-                    resolve(schema, &ctx_field, &field_def.ty, field_value.as_ref()).await?;
+                    resolve_nullable(schema, &ctx_field, &field_def.ty, field_value.as_ref())
+                        .await?;
 
                 Ok(value)
             };
@@ -456,6 +465,23 @@ pub(crate) fn resolve<'a>(
     .boxed()
 }
 
+/// Like `resolve`, but a field error below a nullable position is recorded and
+/// replaced by `null` instead of failing the parent.
+async fn resolve_nullable<'a>(
+    schema: &'a Schema,
+    ctx: &'a Context<'a>,
+    type_ref: &'a TypeRef,
+    value: Option<&'a FieldValue<'a>>,
+) -> ServerResult<Option<Value>> {
+    match resolve(schema, ctx, type_ref, value).await {
+        Err(err) if type_ref.is_nullable() => {
+            ctx.add_error(err);
+            Ok(None)
+        }
+        res => res,
+    }
+}
+
 async fn resolve_list<'a>(
     schema: &'a Schema,
     ctx: &'a Context<'a>,
@@ -484,7 +510,8 @@ async fn resolve_list<'a>(
                 field: &ctx_item.item.node,
             };
 
-            let resolve_fut = async { resolve(schema, &ctx_item, type_ref, Some(value)).await };
+            let resolve_fut =
+                async { resolve_nullable(schema, &ctx_item, type_ref, Some(value)).await };
             futures_util::pin_mut!(resolve_fut);
 
             let res_value = ctx_item
